@@ -608,7 +608,7 @@ def selftest(tier):
 
 
 def meta(tier):
-    return {
+    m = {
         "functions": [DisjointUnion.random_sample_sub_objects, DisjointUnion.get_extra_parameters, CartesianProduct.random_sample_sub_objects,
                       CartesianProduct._valid_compositions, CartesianProduct.reliance_profile, CartesianProduct.get_extra_parameters,
                       Rule.random_sample_object_of_size],
@@ -621,3 +621,5 @@ def meta(tier):
         "stubs": ["randint / random.choice replaced by the harness' draw (range checked)", "sub-samplers and sub-counters are recording stubs"],
         "assumptions": ["sub-counters return the true counts of the children"],
     }
+    m["bounds"] = str(m.get("bounds", "")) + " || end-to-end groups of this run: " + e2e.describe_groups(groups(tier))
+    return m
